@@ -352,9 +352,13 @@ def rule_optused(P):
                 return None
 
             def on_call3(fname, fval, recv, args, kwargs, ex, node):
+                # a private helper of the shell that do_reload delegates to is followed; everything else is an opaque call
+                if recv is SELF and isinstance(node.func, ast.Attribute) and node.func.attr.startswith('_') \
+                        and node.func.attr != '_extract_queries' and node.func.attr in shell.methods:
+                    return NotImplemented
                 ex.events.append(('call', fname, args, kwargs))
                 return T('call', (fname, args, kwargs))
-            for p in Engine(P, on_call=on_call3, oracle=oracle3, max_depth=0).paths(rl, {'self': SELF, 'arg': None}):
+            for p in Engine(P, on_call=on_call3, oracle=oracle3, max_depth=2).paths(rl, {'self': SELF, 'arg': None}):
                 if p.decisions:
                     und = [t for t, _ in p.decisions]
                     if any(isinstance(t, T) and ('errors' in show(t) or 'no_errors' in show(t)) for t in und):
